@@ -29,7 +29,7 @@ HDR_SAFE = """From Coq Require Import ZArith List Bool Reals PrimFloat.
 From FT.lib Require Import Num Arr ArrLemmas NumArr.
 From FT.gen Require Import Common Interp2d Interp3d Vinterp2d Vinterp3d Fteik2d Fteik3d Ray2d Ray3d.
 From FT.proofs Require Import NumFLaws SafetyTools Safety2d SafetyInterp Ray2dProofs.
-From FT.proofs Require Safety3d Ray3dProofs RaySafety2d RaySafety3d SafetySolveTools SafetySolve2d SafetySolve3d.
+From FT.proofs Require Safety3d Ray3dProofs RaySafety2d RaySafety3d SafetySolveTools SafetySolve2d SafetySolve3d TruncLawsF.
 Import ListNotations.
 Open Scope Z_scope.
 """
@@ -288,7 +288,7 @@ Open Scope Z_scope.
     },
     "C03": {
         "title": "Solver total and sane: what is proved about the generated solver for all inputs (raise contract, shapes, 2D non-negativity in exact arithmetic); finite / bounded / zero-only-at-source and 3D non-negativity are examined on the implementation",
-        "header": HDR_G.format(imports="From Coq Require Import Reals.\nFrom FT.proofs Require Import Sweep2dProofs Sweep3dProofs Solve2dProofs Solve3dProofs.\nFrom FT.proofs Require OperatorsR NonNeg2d Pos2d NonNeg3d."),
+        "header": HDR_G.format(imports="From Coq Require Import Reals.\nFrom FT.proofs Require Import Sweep2dProofs Sweep3dProofs Solve2dProofs Solve3dProofs.\nFrom FT.proofs Require OperatorsR NonNeg2d Pos2d NonNeg3d Pos3d."),
         "theorems": [
             ("solve2d_raises_iff_source_outside", "Solve2dProofs.fteik2d_raises_iff", "the 2D solver raises ValueError exactly when the code's own domain test fails (comparisons as written: a NaN coordinate fails it) and otherwise returns; every numeric instance"),
             ("solve3d_raises_iff_source_outside", "Solve3dProofs.fteik3d_raises_iff", "3D"),
@@ -311,6 +311,11 @@ Open Scope Z_scope.
             ("eight_point_unguarded_negative_iff_noncubic", "NonNeg3d.op3_negative_iff_noncubic", "record of the defect repaired by 7b708d7: the UNGUARDED 8-point operator admits non-negative neighbour times passing its own test with a negative result exactly when the three spacings are not all equal"),
             ("node_update_unguarded_refuted", "NonNeg3d.node_unguarded_refuted", "node-level witness over R for the pre-fix update: dz = dy = 1, dx = 1/2 writes -3/10"),
             ("eight_point_guard_noop_cubic", "NonNeg3d.t3d_guard_noop_cubic", "on cubic cells the guarded and the unguarded node values coincide: the fix changes nothing there"),
+            ("solve3d_zero_at_source", "Pos3d.fteik3d_zero_at_source", "3D, positive slowness: a node coinciding with the source (no snapping in 3D: all three coordinates integral in grid units) holds 0"),
+            ("solve3d_positive_off_node", "Pos3d.fteik3d_pos_off_node", "a source that is not on a node: every returned traveltime is > 0"),
+            ("solve3d_zero_dichotomy", "Pos3d.fteik3d_zero_dichotomy", "full statement available for 3D: either 0 occurs only at the source node, or one of the <= 8 nodes whose cube-diagonal neighbour is the source holds 0 (the accepted 8-point candidate is only >= its diagonal corner, and 0 < 0 does not trip the guard)"),
+            ("solve3d_zero_only_at_source_partial", "Pos3d.fteik3d_zero_only_at_source_partial", "PARTIAL: zero only at the source, under the hypothesis (on the returned grid) that none of those diagonal nodes holds 0; the hypothesis is also necessary (fteik3d_zero_only_at_source_iff_diag)"),
+            ("solve3d_zero_only_at_source_refuted", "Pos3d.fteik3d_zero_only_at_source_refuted", "the unconditional 3D clause is REFUTED in exact arithmetic by a complete solve - slowness 2e5 / 9e5 on 1x2x1 cells of (1,4,1): times reach the placeholder 1e5 (known finding F11), an unvisited node passes for a time and the 8-point operator cancels to exactly 0 at node (1,0,1); binary64 kernel call reproduces it (Pos3d.Binary64), the public API does not (1/(1/2e5) is not 2e5)"),
         ],
         "examples": [],
     },
@@ -404,7 +409,9 @@ Open Scope Z_scope.
             ("solve3d_ok", "SafetySolve3d.fteik3d_ok_true", "the whole 3D solver, every numeric instance satisfying TruncDivLaw"),
             ("solve3d_ok_binary64", "SafetySolve3d.fteik3d_ok_true_F", "binary64 satisfies TruncDivLaw (NaN and infinities included): the 3D statement is unconditional for the floats the code runs on"),
             ("trunc_div_law_binary64", "SafetySolveTools.TruncDivLawF", "the law itself"),
-            ("on_node_branch_needs_bounded_grid", "SafetySolveTools.trunc_round_div_range_F_needs_bound", "for binary64 the second law (2D on-node branch tt[int(zsa), int(xsa)] = 0) is false without a bound on the number of cells: n = 2^53+3, d = 1, z = 2^53+4 passes the domain test and indexes node n+1 (witness by vm_compute; such grids do not fit in memory; the law for n <= 2^51 is not proved = the one open obligation of the 2D float statement)"),
+            ("on_node_branch_needs_bounded_grid", "SafetySolveTools.trunc_round_div_range_F_needs_bound", "for binary64 the second law (2D on-node branch tt[int(zsa), int(xsa)] = 0) is false without a bound on the number of cells: n = 2^53+3, d = 1, z = 2^53+4 passes the domain test and indexes node n+1 (witness by vm_compute; such grids do not fit in memory)"),
+            ("on_node_law_binary64", "TruncLawsF.trunc_round_div_range_F", "binary64: with 1 <= n <= 2^50 cells the rounded quotient of an in-domain coordinate is a node index - all floats z, d (NaN, infinities, signed zeros, subnormal d, overflow of d*n, underflow of z/d), via Flocq"),
+            ("solve2d_ok_binary64", "TruncLawsF.fteik2d_ok_true_F", "hence the whole 2D solver performs only in-range accesses on binary64, for every model with 1..2^50 cells per axis, positive spacings, every source (NaN included), nsweep and flag"),
             ("sign_invariant_3d", "SafetySolve3d.sweep3d_preserves_tinv3", "3D gradient bookkeeping invariant through every pass"),
             ("gradient_assembly_ok_3d", "SafetySolve3d.fteik3d_p1_ok_true", "3D gradient assembly reads in range under it"),
         ],
